@@ -53,7 +53,7 @@ RtFrames == {F(c, m, l, f) :
                c \in {B("a.B"), B("a$b")} \cup (IF Rich THEN {E \o B(".C")} ELSE {}),
                m \in {B("<init>"), B("m")},
                l \in {D(0), U64Max} \cup (IF Rich THEN {D(1)} ELSE {}),
-               f \in {B("B.java"), B("")} \cup (IF Rich THEN {B("<unknown>"), B("x(y)")} ELSE {})}
+               f \in {B("B.java"), B(""), B("x(y).java")} \cup (IF Rich THEN {B("<unknown>"), B("x(y)")} ELSE {})}
 RtFrameSeqs == {<<>>} \cup {<<f>> : f \in RtFrames} \cup
                (IF Rich THEN {<<f, g>> : f, g \in {F(B("a.B"), B("m"), D(0), B("B.java")), F(B("a$b"), B("<init>"), U64Max, B(""))}} ELSE {})
 RtLevel1 == {Lv(e, fs) : e \in {<<>>} \cup {<<t>> : t \in RtThrowables}, fs \in RtFrameSeqs}
@@ -79,6 +79,8 @@ TextLines ==
    <<9>> \o B("at b.c.p(Unknown Source:7)"),   \* tab indented mapped frame
    <<9>> \o B("at zz.Unknown.f(X.java:1)"),    \* the unmapped frame again, spelled differently (tab): lines that
    B("  at a.m(SourceFile:9)"),                \* parse to EQUAL frames but differ as text are each passed through as given
+   <<194, 160>> \o B("at a.m(SourceFile:2)"),  \* indented with U+00A0: str::trim strips every Unicode White_Space character
+   B("a: boom") \o <<227, 128, 128>>,          \* throwable followed by U+3000
    B("    ... 3 more"),
    <<>>,                                       \* blank line
    B("message says at a.m(SourceFile:2) here"),\* frame look-alike inside free text
@@ -87,7 +89,9 @@ TextLines ==
 TextLinesTail ==
   {B("a: boom"), B("Caused by: a: inner"), B("    at a.n(SourceFile:4)"), B("    at a.m(SourceFile:9)"),
    B("  at a.m(SourceFile:9)"), B("    at zz.Unknown.f(X.java:1)"), <<9>> \o B("at zz.Unknown.f(X.java:1)"),
-   B("    ... 3 more"), <<>>}
+   B("    ... 3 more"), <<>>,
+   B("    at a.m(SourceFile:2)") \o <<11>>,    \* a vertical tab behind a frame
+   B("Caused by: a") \o <<194, 133>>}          \* a cause followed by U+0085
 LineTerms == IF Rich THEN {<<10>>, <<13, 10>>} ELSE {<<10>>}
 
 \* ---- mode "typed" ------------------------------------------------------------------------------------
